@@ -28,6 +28,11 @@ def has_yield(fnode) -> bool:
     return False
 
 
+class LocalsAtExit(dict):
+    """local variables of a logged call at its exit; .entry = the arguments as they were bound on entry"""
+    entry: dict = {}
+
+
 class CallMixin:
 
     # ------------------------------------------------------------ call expression
@@ -254,6 +259,7 @@ class CallMixin:
             selfn = closure_self
         nfr = Frame(fi, fi.module, captured, fr.chain + ((site, fi),), len(st.pc), selfn, fi.cls)
         n_entry = len(self.g.nodes)
+        entry_args = dict(locals_)
         cst = St(locals_, st.heap, st.cur, st.pc)
         saved_fn = self._cur_fn
         self._cur_fn = fi
@@ -271,7 +277,11 @@ class CallMixin:
             if fi.qualname in self.watch_locals:
                 self.kept_locals.setdefault(fi.qualname, []).append((mst.locals, mst))
             if fi.qualname in self.watch_calls:
-                self.call_log.append((fi, site, locals_, v, st.pc))
+                # locals at the exit of the call (merged over its exits); .entry holds the arguments as bound on entry
+                lv = LocalsAtExit(locals_)
+                lv.update(mst.locals)
+                lv.entry = entry_args
+                self.call_log.append((fi, site, lv, v, st.pc))
             # every inlined call: (function, call chain, first node id, one past the last node id, value)
             self.call_records.append((fi, nfr.chain, n_entry, len(self.g.nodes), v))
             st.heap, st.cur, st.pc = mst.heap, mst.cur, mst.pc
@@ -552,6 +562,18 @@ class CallMixin:
         recv_id = (fn.extra or {}).get("recv") or self.view_base(fn) or recv_v
         name = fn.attr
         recv = self.res(recv_id, st)
+        if recv.op == "Class" and name == "_make" and len(pos) == 1 and not kw and \
+                any(b.split(".")[-1] == "NamedTuple" for b in self.ext_bases(recv.attr)):
+            # NamedTuple._make(iterable): the record of the iterable's elements
+            seq = self.res(pos[0], st)
+            n_ = self.seq_len(seq)
+            items = self.known_items(seq)
+            if items is None and n_ is not None:
+                items = [self.elem(seq, i, None, site) for i in range(n_)]
+            if items is None:
+                nf = len([k for k, s_ in recv.attr.assigns.items() if isinstance(s_, ast.AnnAssign)])
+                items = [self.elem(seq, i, None, site) for i in range(nf)]
+            return self.instantiate(recv, items, {}, st, fr, site)
         # dict / list models
         if recv.op == "Dict":
             if name == "keys" and not pos:
